@@ -244,7 +244,13 @@ def load_program(database: str = 'batch', sql_dir: str = 'batch/sql') -> SqlProg
             m3 = re.match(r'\s*DROP\s+TABLE\s+(?:IF\s+EXISTS\s+)?`?([A-Za-z_0-9]+)`?', body, re.I)
             if m3:
                 tables.pop(m3.group(1), None)
-            m4 = re.match(r'\s*(?:ALTER|RENAME)\s+TABLE\s+`?([A-Za-z_0-9]+)`?\s+(?:RENAME\s+)?(?:TO\s+)`?([A-Za-z_0-9]+)`?', body, re.I)
+            # RENAME TABLE a TO b, c TO d, ...   and   ALTER TABLE a RENAME [TO|AS] b
+            mr = re.match(r'\s*RENAME\s+TABLE\s+(.*)$', body, re.I | re.S)
+            if mr:
+                for a, b in re.findall(r'`?([A-Za-z_0-9]+)`?\s+TO\s+`?([A-Za-z_0-9]+)`?', mr.group(1), re.I):
+                    if a in tables:
+                        tables[b] = tables.pop(a)
+            m4 = re.match(r'\s*ALTER\s+TABLE\s+`?([A-Za-z_0-9]+)`?\s+RENAME\s+(?:TO\s+|AS\s+)?`?([A-Za-z_0-9]+)`?\s*;?\s*$', body, re.I)
             if m4 and m4.group(1) in tables:
                 tables[m4.group(2)] = tables.pop(m4.group(1))
             m5 = re.match(r'\s*ALTER\s+TABLE\s+`?([A-Za-z_0-9]+)`?', body, re.I)
